@@ -147,6 +147,8 @@ pub struct TokDe {
     pub pos: usize,
     pub hint: Option<usize>,
     pub pending_val: Option<u64>,
+    /// report an error instead of delivering this entry
+    pub fail_at: Option<u16>,
 }
 
 impl<'de> serde::Deserializer<'de> for &mut TokDe {
@@ -169,6 +171,9 @@ impl<'de> serde::Deserializer<'de> for &mut TokDe {
 impl<'de> MapAccess<'de> for &mut TokDe {
     type Error = TErr;
     fn next_key_seed<S: DeserializeSeed<'de>>(&mut self, seed: S) -> Result<Option<S::Value>, TErr> {
+        if self.fail_at == Some(self.pos as u16) {
+            return Err(TErr("injected transport error".into()));
+        }
         if self.pos >= self.entries.len() {
             return Ok(None);
         }
@@ -191,6 +196,9 @@ impl<'de> MapAccess<'de> for &mut TokDe {
 impl<'de> SeqAccess<'de> for &mut TokDe {
     type Error = TErr;
     fn next_element_seed<S: DeserializeSeed<'de>>(&mut self, seed: S) -> Result<Option<S::Value>, TErr> {
+        if self.fail_at == Some(self.pos as u16) {
+            return Err(TErr("injected transport error".into()));
+        }
         if self.pos >= self.entries.len() {
             return Ok(None);
         }
@@ -278,7 +286,7 @@ fn sim_panic(p: &Box<dyn std::any::Any + Send>) -> bool {
 
 pub fn map_roundtrip<K: SimK, V: SimV, const C1: usize, const C2: usize>(m: &Map<K, V, C1>, cx: &mut Cx<K, V>, cfg: &SerdeCfg, pre: &Snap) {
     let aw = cx.cfg.alloc_window && cfg.bincode;
-    let diag = cfg.truncate.is_some() || cfg.flip_bit.is_some() || cfg.ser_fail_at.is_some() || (!cfg.bincode && cfg.hint >= 2);
+    let diag = cfg.truncate.is_some() || cfg.flip_bit.is_some() || cfg.ser_fail_at.is_some() || cfg.de_fail_at.is_some() || (!cfg.bincode && cfg.hint >= 2);
     let len = pre.len();
     if len > C2 {
         return;
@@ -344,7 +352,7 @@ pub fn map_roundtrip<K: SimK, V: SimV, const C1: usize, const C2: usize>(m: &Map
                 ents[i].0 ^= 1 << (40 + (b % 4));
             }
         }
-        let mut de = TokDe { hint: hint_of(cfg.hint, ents.len()), entries: ents, pos: 0, pending_val: None };
+        let mut de = TokDe { hint: hint_of(cfg.hint, ents.len()), entries: ents, pos: 0, pending_val: None, fail_at: cfg.de_fail_at };
         let r = catch_unwind(AssertUnwindSafe(|| Map::<K, V, C2>::deserialize(&mut de)));
         decoded = match r {
             Ok(Ok(d)) => Ok(d),
@@ -380,7 +388,7 @@ pub fn map_roundtrip<K: SimK, V: SimV, const C1: usize, const C2: usize>(m: &Map
 
 pub fn set_roundtrip<K: SimK, V: SimV, const C1: usize, const C2: usize>(s: &Set<K, C1>, cx: &mut Cx<K, V>, cfg: &SerdeCfg, pre: &Snap) {
     let aw = cx.cfg.alloc_window && cfg.bincode;
-    let diag = cfg.truncate.is_some() || cfg.flip_bit.is_some() || cfg.ser_fail_at.is_some() || (!cfg.bincode && cfg.hint >= 2);
+    let diag = cfg.truncate.is_some() || cfg.flip_bit.is_some() || cfg.ser_fail_at.is_some() || cfg.de_fail_at.is_some() || (!cfg.bincode && cfg.hint >= 2);
     let len = pre.len();
     if len > C2 {
         return;
@@ -437,7 +445,7 @@ pub fn set_roundtrip<K: SimK, V: SimV, const C1: usize, const C2: usize>(s: &Set
         if let Some(t) = cfg.truncate {
             ents.truncate(t as usize);
         }
-        let mut de = TokDe { hint: hint_of(cfg.hint, ents.len()), entries: ents, pos: 0, pending_val: None };
+        let mut de = TokDe { hint: hint_of(cfg.hint, ents.len()), entries: ents, pos: 0, pending_val: None, fail_at: cfg.de_fail_at };
         let r = catch_unwind(AssertUnwindSafe(|| Set::<K, C2>::deserialize(&mut de)));
         decoded = match r {
             Ok(Ok(d)) => Ok(d),
